@@ -435,6 +435,15 @@ func sameIPs(a, b []net.IP) bool {
 }
 
 func sequential(c *vf.Ctx, names []string, nAddr int, depth2 bool, tag string) {
+	sequentialN(c, names, nAddr, depth2, tag, 3_000_000, true)
+}
+
+// sequentialCapped explores breadth-first up to maxStates states; not reaching the fix-point is then expected and reported as a bound, not as a cap that was hit by accident.
+func sequentialCapped(c *vf.Ctx, names []string, nAddr int, maxStates int, tag string) {
+	sequentialN(c, names, nAddr, false, tag, maxStates, false)
+}
+
+func sequentialN(c *vf.Ctx, names []string, nAddr int, depth2 bool, tag string, maxStates int, wantFix bool) {
 	ops := buildOps(names, nAddr)
 	chk := checker(func(key string, ok bool, w func() string) { c.Check(key, ok, w) })
 	build := func(path []int) (*nbtns.NetBIOSNameServer, *ghost) {
@@ -478,7 +487,9 @@ func sequential(c *vf.Ctx, names []string, nAddr int, depth2 bool, tag string) {
 		for _, n := range names {
 			q := apply(t, op{k: kQuery, name: n})
 			g.checkQuery(n, q, chk, func(msg string) func() string {
-				return func() string { return fmt.Sprintf("%s then %s (returned %s): Query(%s) = %s — %s", ctx(), o, res, n, q, msg) }
+				return func() string {
+					return fmt.Sprintf("%s then %s (returned %s): Query(%s) = %s — %s", ctx(), o, res, n, q, msg)
+				}
 			})
 			// a returned slice is the caller's own: overwriting it must not reach the table
 			if !q.err && len(q.raw) > 0 {
@@ -519,7 +530,7 @@ func sequential(c *vf.Ctx, names []string, nAddr int, depth2 bool, tag string) {
 	s := &bfs.Search{
 		NOps:      len(ops),
 		InitKey:   dump(t0) + "|" + g0.key(),
-		MaxStates: 3_000_000,
+		MaxStates: maxStates,
 		Stop:      c.DeadlineExceeded,
 		Step: func(path []int, oi int) (string, bool) {
 			t, g := build(path)
@@ -558,7 +569,7 @@ func sequential(c *vf.Ctx, names []string, nAddr int, depth2 bool, tag string) {
 	c.Add("traces_validated_against_impl", int64(r.Transitions))
 	c.Evals(int64(r.Transitions))
 	c.Set("bfs_"+tag, map[string]any{"names": names, "addresses": nAddr, "alphabet": len(ops), "states": r.States, "transitions": r.Transitions, "depth": r.Depth, "fixpoint": r.FixPoint})
-	if !r.FixPoint {
+	if !r.FixPoint && wantFix {
 		c.Cap("name-table BFS " + tag + " did not reach its fix-point")
 	}
 	for _, p := range r.SamplePaths {
@@ -879,7 +890,10 @@ func run(c *vf.Ctx) {
 	sequential(c, []string{"A", "B"}, 3, c.Thorough(), "2names")
 	c.Set("wall_bfs_s", time.Since(t0).Seconds())
 	if c.Thorough() {
-		sequential(c, []string{"A", "B", "C"}, 3, false, "3names")
+		// two names x four address forms (a third distinct address: three-member groups, non-adjacent
+		// owners) to fix-point; three names only to a state cap (cross-name interference)
+		sequential(c, []string{"A", "B"}, 4, false, "2names-4addresses")
+		sequentialCapped(c, []string{"A", "B", "C"}, 3, 400000, "3names")
 	}
 
 	two1, three1, two2 := scenarios(c)
